@@ -1363,6 +1363,36 @@ def enum_meets_container(a, b):
     return False
 
 
+def enum_internal_alias(a, b, sp):
+    """a set member that is ==-equal to an INTERNAL of an Enum member among the set members of the run, but of another type /
+    representation (1.0, Decimal('1'), 0.0 against G.P = 1 with _sort_order_ 0; Decimal('1.5') against G.W = 1.5).  Without
+    use_enum_value DeepHash hashes an Enum member through _prep_obj, which stores its _value_, _name_ and _sort_order_ in the run-wide
+    ==-keyed table; a later lookup of the ==-equal set member hits that entry BEFORE _skip_this is asked, so the member gets the text
+    of the internal (and a member of an excluded type is hashed after all).  The memo model (Options/YMemo.v: stored_internals,
+    minsert) stores these internals too: such runs are compared with the memo model (run_memoF), not with the table-free one.
+    Confirmed on the implementation:
+    DeepDiff({'a': {G.P}, 'b': frozenset([1.0])}, {'a': {G.P}, 'b': frozenset([Decimal('1')])}, exclude_types=[float]) == {}
+    while the same with G.T (= 2, _sort_order_ 4) reports set_item_added."""
+    if sp["enum"]:
+        return False          # the member is replaced by its value before the lookup: YMemo.unwrap
+    sm = set_members(a, []) + set_members(b, [])
+    internals = []
+    for m in sm:
+        if isinstance(m, ENUMS):
+            internals += [m.value, m.name, list(type(m)).index(m)]          # _value_, _name_, _sort_order_
+    if not internals:
+        return False
+    for x in sm:
+        if isinstance(x, ENUMS) or isinstance(x, bool):                     # bools live under BoolObj keys
+            continue
+        for i in internals:
+            if isinstance(i, bool):
+                continue
+            if _eq(x, i) and (type(x) is not type(i) or repr(x) != repr(i)):
+                return True
+    return False
+
+
 def xmodel_case(args):
     """worker: one correspondence case of the extended model"""
     a, b, sp, zip_, thr, fam, name = args
@@ -2256,11 +2286,265 @@ def replay_witnesses(ctx):
 
 
 # --------------------------------------------------------------------------
+# source tie (DESIGN.md section 4.5): the option-dependent fragments of diff.py / base.py / helper.py are regenerated
+# from the current source by harness/translate/optionskeys.py and proved equal to the hand model (coq/srctie/OptionsGenEquiv.v)
+# --------------------------------------------------------------------------
+SOURCE_TIES = [{
+    "name": "optionskeys", "translator": "optionskeys", "gen_module": "OptionsGen", "equiv": ["OptionsGenEquiv"],
+    "needs": ["Options.OptSrcPrims", "Options.YProofsAtoms", "Options.YProofsKeys", "Options.YProofsCompNum", "Options.YShow"],
+    "sources": ["deepdiff/diff.py", "deepdiff/base.py", "deepdiff/helper.py"],
+    "fragment": "diff.py: DeepDiff._get_clean_to_keys_mapping, the key-set slice of _diff_dict (whether keys are cleaned; t_keys_intersect / "
+                "added / removed), _diff_numbers, _diff_booleans, _diff_datetime, _diff_time; base.py: Base.get_significant_digits; "
+                "helper.py: number_to_string, number_formatting, KEY_TO_VAL_STR (and the class tuples numbers / strings / ... as checked constants)",
+}]
+
+TIE_HDR = ("From DD Require Import Base.PyStr Options.OptModel Options.OptDtModel Options.YValue Options.YModel Options.YShow Options.OptSrcPrims.\n"
+           "From DDGen Require Import OptionsGen.\nLocal Open Scope string_scope.\n"
+           "Definition sx_err (e : errk) : sx := SA (match e with EType => \"TypeError\" | EValue => \"ValueError\" | EAttr => \"AttributeError\" end).\n"
+           "Definition sx_r {A} (f : A -> sx) (r : res A) : sx := match r with Ok x => SL [SA \"ok\"; f x] | Err e => SL [SA \"raised\"; sx_err e] end.\n"
+           "Definition sx_d (d : pydict) : sx := sx_list (sx_pair sx_atom sx_atom) d.\n"
+           "Definition sx_ks (l : list atom) : sx := sx_list sx_atom l.\n"
+           "Definition sx_es (l : list entry) : sx := sx_list sx_entry l.\n"
+           "Definition sx_k7 (x : option pydict * option pydict * list atom * list atom * list atom * list atom * list atom) : sx :=\n"
+           "  let '(a, b, c, d, e, f, g) := x in SL [sx_opt sx_d a; sx_opt sx_d b; sx_ks c; sx_ks d; sx_ks e; sx_ks f; sx_ks g].\n"
+           "Definition h_keys7 (F : opts) (r1 r2 : list atom) :=\n"
+           "  bind (kmap F r1) (fun km1 => bind (kmap F r2) (fun km2 =>\n"
+           "    let k1 := ckeys F r1 km1 in let k2 := ckeys F r2 km2 in\n"
+           "    Ok (if cleaning F then Some km1 else None, if cleaning F then Some km2 else None, k1, k2,\n"
+           "        so_and k2 k1, so_sub k2 (so_and k2 k1), so_sub k1 (so_and k2 k1)))).\n"
+           "Definition h_nts (F : opts) (d : N) (a : atom) : res atom :=\n"
+           "  match nstr F d a with Some (Ok s) => Ok (AStr s) | Some (Err e) => Err e | None => Ok a end.\n"
+           "Definition lv (a b : atom) : plevel := mkLv a b [] [] None.\n"
+           "Fixpoint tie_bad (i fuel : nat) (cs : list (sx * sx)) (acc : list nat) : list nat :=\n"
+           "  match cs with\n  | [] => rev acc\n"
+           "  | (a, b) :: r => if sx_eqb a b then tie_bad (S i) fuel r acc\n"
+           "                   else match fuel with O => rev acc | S f => tie_bad (S i) f r (i :: acc) end\n  end.\n"
+           "Definition tie_show (l : list nat) : string :=\n"
+           "  (\"BEGIN\" ++ nl ++ fold_right (fun i s => show_nat i ++ tab ++ \"x\" ++ nl ++ s) \"END\" l)%string.\n"
+           "Definition ud0 (_ _ : pystr) : pystr := [].\n"
+           "Local Open Scope Z_scope.\n")
+
+
+def _tie_universe():
+    """the module's key / leaf universe and option sets for differencing generated vs hand definitions"""
+    keys = [None, True, False, 0, 1, 2, -1, 12, 1.0, 1.5, 2.5, 0.5, -0.25, 2.675, 0.125, "a", "A", "ab", "Ab", "AB", "1", "int:1", "number:1.0",
+            "float:1.5", "nan", b"a", b"A", b"Ab", b"ab", b"1", E.A, E.B, E.C, E.D, G.P, G.Q, G.R, G.S, G.U, Decimal("1.5"), Decimal("1.50"),
+            Decimal("2"), Decimal("2.675"), NANS[0], NANS[1], _dt(2024, 6, 1, 12, 40, 27, 250000), _dt(2024, 6, 1, 12, 40, 27, 0, 120),
+            _dt(2024, 6, 1, 10, 40, 59, 0, 0), datetime.date(2024, 6, 1), datetime.time(1, 2, 3), datetime.time(1, 2, 3, 500000),
+            datetime.timedelta(1), datetime.timedelta(seconds=86401)]
+    keys = [k for k in keys if x_ok_atom(k)]
+    fs = []
+    for case in (False, True):
+        for strty in (False, True):
+            for numty in (False, True):
+                for sig, note in ((None, False), (0, False), (1, False), (2, False), (2, True), (0, True)):
+                    for enum_ in (False, True):
+                        fs.append(mk(case=case, strty=strty, numty=numty, sig=sig, note=note, enum=enum_))
+    leaf_fs = []
+    for numty in (False, True):
+        for sig, note in ((None, False), (0, False), (1, False), (2, False), (2, True)):
+            for eps in (None, 0.0, 0.5):
+                for trunc in (None, "minute"):
+                    leaf_fs.append(mk(numty=numty, sig=sig, note=note, eps=eps, trunc=trunc, tz=(120 if trunc else None)))
+    return keys, fs, leaf_fs
+
+
+def _tie_differences(ctx, gen_dir):
+    """evaluate the generated definitions and the hand model inside Coq on the universe; returns (searched, [difference records])"""
+    import os
+    keys, fs, leaf_fs = _tie_universe()
+    nk = len(keys)
+    small = [k for k in keys if not isinstance(k, (datetime.date, datetime.time, datetime.timedelta)) and not is_nan(k)][:34]
+    klists = [[a, b] for a in small for b in small if a is not b and not _eq(a, b)]
+    klists = klists[::3] + [[1, "a", 1.5, "A", b"a"], ["A", "a", b"A"], [1, 2.0, Decimal("1.0") if False else 1.5, "int:1"]]
+    leaves = [k for k in keys]
+    numa = [k for k in keys if is_number(k) or is_nan(k) or isinstance(k, bool)]
+    fams = []      # (name, coq list expression of (sx * sx), decoder index -> record)
+    K = "KS"
+    defs = ["Definition KS : list atom := %s." % coq_list(x_atom_to_coq(k) for k in keys),
+            "Definition FS : list opts := %s." % coq_list(xcoq_opts(f) for f in fs),
+            "Definition LFS : list opts := %s." % coq_list(xcoq_opts(f) for f in leaf_fs),
+            "Definition KLS : list (list atom) := %s." % coq_list(coq_list(x_atom_to_coq(k) for k in kl) for kl in klists),
+            "Definition NA : list atom := %s." % coq_list(x_atom_to_coq(k) for k in numa)]
+    fams.append(("clean_key", "flat_map (fun F => map (fun k => (sx_r sx_d (g_get_clean_to_keys_mapping_body F k []), "
+                 "sx_r sx_d (bind (clean_key F k) (fun ck => Ok [(ck, k)])))) KS) FS",
+                 lambda i: {"function": "_get_clean_to_keys_mapping (one key)", "spec": fs[i // nk], "keys": [keys[i % nk]]}))
+    # vm_compute of run_cases overflows the stack beyond ~ 20 000 cases: the option sets are cut into chunks of 12 (one file each)
+    nkl = len(klists)
+    for c0 in range(0, len(fs), 12):
+        fams.append(("clean_map_%d" % c0, "flat_map (fun F => map (fun ks => (sx_r sx_d (g_get_clean_to_keys_mapping F ks), sx_r sx_d (clean_map F ks []))) KLS) "
+                     "(firstn 12 (skipn %d FS))" % c0,
+                     lambda i, c0=c0: {"function": "_get_clean_to_keys_mapping", "spec": fs[c0 + i // nkl], "keys": klists[i % nkl]}))
+    for c0 in range(0, 24, 8):
+        fams.append(("dict_keys_%d" % c0, "flat_map (fun F => flat_map (fun r1 => map (fun r2 => (sx_r sx_k7 (g_diff_dict_keys F r1 r2), sx_r sx_k7 (h_keys7 F r1 r2))) "
+                     "(firstn 40 KLS)) (firstn 40 KLS)) (firstn 8 (skipn %d FS))" % c0,
+                     lambda i, c0=c0: {"function": "_diff_dict (key sets)", "spec": fs[c0 + i // 1600], "keys": klists[(i % 1600) // 40], "keys2": klists[i % 40]}))
+    nn = len(numa)
+    fams.append(("number_to_string", "flat_map (fun F => flat_map (fun d => map (fun a => (sx_r sx_atom (g_number_to_string (PAtom a) d (py_notation F)), "
+                 "sx_r sx_atom (h_nts F d a))) KS) [0%N; 1%N; 2%N; 3%N]) (firstn 2 LFS ++ [nth 4 LFS no_opts])%list",
+                 lambda i: {"function": "number_to_string", "spec": mk(sig=(i % (4 * nk)) // nk, note=(i // (4 * nk)) == 2), "leaf": keys[i % nk]}))
+    fams.append(("diff_numbers", "flat_map (fun F => flat_map (fun rtc => flat_map (fun a => map (fun b => (sx_r sx_es (g_diff_numbers F (lv a b) rtc), "
+                 "sx_r sx_es (numD F rtc a b [] []))) KS) NA) [true; false]) LFS",
+                 lambda i: {"function": "_diff_numbers", "spec": leaf_fs[i // (2 * nn * nk)], "rtc": (i % (2 * nn * nk)) // (nn * nk) == 0,
+                            "leaf": numa[(i % (nn * nk)) // nk], "leaf2": keys[i % nk]}))
+    fams.append(("diff_time", "flat_map (fun F => flat_map (fun a => map (fun b => (sx_r sx_es (g_diff_time F (lv a b)), sx_r sx_es (timeD F a b [] []))) KS) KS) "
+                 "(firstn 4 LFS)",
+                 lambda i: {"function": "_diff_time", "spec": leaf_fs[i // (nk * nk)], "leaf": keys[(i % (nk * nk)) // nk], "leaf2": keys[i % nk]}))
+    fams.append(("diff_datetime", "flat_map (fun F => flat_map (fun a => map (fun b => (sx_r sx_es (match a with ADt _ _ => g_diff_datetime F (lv a b) | _ => Ok [] end), "
+                 "sx_r sx_es (match a with ADt _ _ => dtD F a b [] [] | _ => Ok [] end))) KS) KS) (firstn 4 LFS)",
+                 lambda i: {"function": "_diff_datetime", "spec": leaf_fs[i // (nk * nk)], "leaf": keys[(i % (nk * nk)) // nk], "leaf2": keys[i % nk]}))
+    fams.append(("diff_booleans", "flat_map (fun a => map (fun b => (sx_r sx_es (g_diff_booleans no_opts (lv a b)), "
+                 "sx_r sx_es (dispatch ud0 no_opts true a b [] []))) KS) [ABool true; ABool false]",
+                 lambda i: {"function": "_diff_booleans", "spec": mk(), "leaf": [True, False][i // nk], "leaf2": keys[i % nk]}))
+    fams.append(("get_significant_digits", "map (fun F => (sx_r (sx_opt sx_N) (g_get_significant_digits (o_sig F) (o_numty F)), sx_r (sx_opt sx_N) (Ok (eff_sig F)))) FS",
+                 lambda i: {"function": "get_significant_digits", "spec": fs[i]}))
+    diffs, searched = [], {}
+
+    def one(fam):
+        name, expr, _dec = fam
+        fn = os.path.join(gen_dir, "tiediff_%s.v" % name)
+        with open(fn, "w") as f:
+            f.write("From Coq Require Import List String ZArith NArith Bool.\nImport ListNotations.\nFrom DD Require Import Base.Sx.\n")
+            f.write(TIE_HDR + "\n".join(defs) + "\nDefinition cases : list (sx * sx) := %s.\nEval vm_compute in tie_show (tie_bad 0 60 cases []).\n" % expr)
+        return core.sh(["coqc", "-Q", core.THEORIES, "DD", "-Q", gen_dir, "DDGen", fn], timeout=900, cwd=gen_dir)
+    from concurrent.futures import ThreadPoolExecutor
+    import re as _re
+    with ThreadPoolExecutor(max_workers=core.NCPU) as ex:
+        outs = list(ex.map(one, fams))
+    for (name, _expr, dec), (rc, out) in zip(fams, outs):
+        m = _re.search(r'"BEGIN\n(.*)END"', out, _re.S)
+        if rc != 0 or not m:
+            searched[name] = "coqc failed: " + out[-300:]
+            continue
+        idx = [int(line.partition("\t")[0]) for line in m.group(1).splitlines() if line.strip()]
+        searched[name] = {"differing (first 60 at most)": len(idx)}
+        kept = 0
+        for i in idx:
+            d = dec(i)
+            if "keys" in d and not _cleaning(d["spec"]):
+                continue          # the mapping is only ever built under a cleaning option: not reachable through DeepDiff
+            diffs.append(d)
+            kept += 1
+            if kept >= 12:
+                break
+    return searched, diffs
+
+
+def _tie_inputs(rng, d):
+    """DeepDiff inputs that exercise one generated-vs-hand difference"""
+    sp = d["spec"]
+    out = []
+    keys, _fs, _lfs = _tie_universe()
+    if "keys" in d:
+        ks = distinct(d["keys"])
+        t1 = {k: i for i, k in enumerate(ks)}
+        out.append(("rand", t1, dict(t1)))
+        out.append(("rand", t1, {k: i for i, k in enumerate(reversed(ks))}))
+        if "keys2" in d:
+            out.append(("rand", t1, {k: i for i, k in enumerate(distinct(d["keys2"]))}))
+        for k in ks:          # which of two keys with one clean key represents the class: a single key against the whole dict
+            for v in range(len(ks)):
+                out.append(("rand", t1, {k: v}))
+                out.append(("rand", {k: v}, t1))
+        for k in ks:
+            for k2 in keys:
+                try:
+                    hash(k2)
+                except TypeError:
+                    continue
+                out.append(("rand", {k: 1}, {k2: 1}))
+        for _ in range(6):
+            log = []
+            out.append(("alt", t1, normalise(rng, t1, sp, True, 1.0, log), log))
+    elif "leaf" not in d:
+        # get_significant_digits: numbers that agree to 11 / 12 / 13 digits, and near halves (rounding is not monotone in the digits)
+        for a, b in ((1.0, 1.0 + 3e-12), (1.0, 1.0 + 3e-13), (1.0, 1.0 + 3e-11), (0.5 - 2 ** -42, 0.5 + 2 ** -42), (1, 1.0 + 3e-12), (2.5, 2.5 + 3e-12)):
+            out.append(("rand", a, b))
+            out.append(("rand", [a, "x"], [b, "x"]))
+            out.append(("rand", {a: 1}, {b: 1}))
+    else:
+        a = d["leaf"]
+        bs = [d["leaf2"]] if "leaf2" in d else keys
+        for b in bs:
+            out.append(("rand", a, b))
+            out.append(("rand", [a, "x"], [b, "x"]))
+            out.append(("rand", {"k": a}, {"k": b}))
+            try:
+                out.append(("rand", {a: 1}, {b: 1}))
+            except TypeError:
+                pass
+        for _ in range(4):
+            log = []
+            out.append(("alt", [a], normalise(rng, [a], sp, True, 1.0, log), log))
+    return out
+
+
+def on_source_tie_break(ctx, name, rec):
+    """generated model vs hand model inside Coq on the key / leaf universe x option combinations; every difference is turned into
+    DeepDiff inputs that go through the ordinary correspondence (extended model vs implementation) and the direct oracle"""
+    import os
+    gen_dir = os.path.join(ctx.scratch, "srctie")
+    info = {"status": rec.get("status")}
+    diffs = []
+    if os.path.exists(os.path.join(gen_dir, "OptionsGen.vo")):
+        searched, diffs = _tie_differences(ctx, gen_dir)
+        info["generated_vs_hand"] = searched
+    else:
+        info["generated_vs_hand"] = "no generated model to evaluate (%s)" % rec.get("status")
+    rng = random.Random(ctx.seed + 11)
+    global _XU
+    xu0, _XU = _XU, True
+    xjobs, ojobs = [], []
+    seen = set()
+    try:
+        for d in diffs[:60]:
+            sp = d["spec"]
+            for item in _tie_inputs(rng, d):
+                fam, a, b = item[0], item[1], item[2]
+                log = item[3] if len(item) > 3 else []
+                key = (fam, lit(a), lit(b), repr(sorted(sp.items(), key=str)))
+                if key in seen:
+                    continue
+                seen.add(key)
+                nm = "hand-srctie:" + "+".join(active(sp))
+                for zip_ in (False, True):
+                    ojobs.append((a, b, sp, zip_, fam, nm, log))
+                if in_xuniverse(a) and in_xuniverse(b) and not xset_alias(a, b, sp) and not (sp["enum"] and enum_meets_container(a, b)) \
+                        and not enum_internal_alias(a, b, sp):
+                    xjobs.append((a, b, sp, False, 0.33, "srctie", nm))
+    finally:
+        _XU = xu0
+    info["differences_found"] = len(diffs)
+    info["first_differences"] = [{k: (lit(v) if k in ("leaf", "leaf2") else [lit(x) for x in v] if k in ("keys", "keys2") else v) for k, v in d.items()}
+                                 for d in diffs[:5]]
+    info["inputs_replayed_on_implementation"] = {"correspondence": len(xjobs), "oracle": len(ojobs)}
+    if xjobs or ojobs:
+        with mp.get_context("fork").Pool(core.NCPU) as pool:
+            xres = pool.map(xmodel_case, [(pack(j[0]), pack(j[1])) + tuple(j[2:]) for j in xjobs], chunksize=8)
+            ores = pool.map(oracle_case, [(pack(j[0]), pack(j[1])) + tuple(j[2:]) for j in ojobs], chunksize=8)
+        cases = []
+        for (expr, obs, _tile_ok, _ntab, _gexpr, _gexp), job in zip(xres, xjobs):
+            a, b, sp, zip_, thr, fam, nm = job
+            cases.append((expr, obs, {"family": fam, "options": nm, "spec": sp, "zip": zip_, "thr": thr, "t1": lit(a), "t2": lit(b),
+                                      "why": "input derived from a difference between the model regenerated from the source and the hand model"}))
+        m0 = ctx.corr_mismatch
+        ctx.coq_cases("c11_srctie", XHDR, cases, shard=120, label="source-tie differences replayed (extended model vs implementation)")
+        info["correspondence_mismatches"] = ctx.corr_mismatch - m0
+        f0 = len(ctx.failures)
+        report_oracle(ctx, ores, ojobs)
+        info["oracle_failures"] = len(ctx.failures) - f0
+    return info
+
+
+# --------------------------------------------------------------------------
 # run
 # --------------------------------------------------------------------------
 def run(ctx):
     rng = ctx.rng
-    thorough = ctx.thorough
+    # a source tie that is not intact escalates the streams that exercise the fragment to the thorough budgets
+    thorough = ctx.thorough or ctx.tie_broken("optionskeys")
+    if thorough and not ctx.thorough:
+        ctx.note("escalated_by_source_tie", True)
     replay_witnesses(ctx)
     replay_trunc_date(ctx)
     atom_level(ctx, 5000 if thorough else 320)
@@ -2334,8 +2618,11 @@ def run(ctx):
             if sp["enum"] and enum_meets_container(a, b):
                 ctx.count("xcorr_skipped:str_valued_enum_member_meets_container")
                 continue
-            if xset_alias(a, b, sp):
-                # ==-equal set members of different type / representation: the run's DeepHash memo table decides (K2): Options/YMemo.v
+            if xset_alias(a, b, sp) or enum_internal_alias(a, b, sp):
+                # ==-equal set members of different type / representation, or a set member ==-equal to an internal (_value_, _name_,
+                # _sort_order_) of an Enum member hashed as an object: the run's DeepHash memo table decides (K2): Options/YMemo.v
+                if enum_internal_alias(a, b, sp):
+                    ctx.count("memo_corr:set_member_aliases_enum_member_internal")
                 mjobs2.append((a, b, sp, zip_, thr, "memo", name))
                 continue
             if sp["enum"] and enum_meets_container(a, b):
@@ -2357,10 +2644,18 @@ def run(ctx):
              (datetime.time(1, 2, 3), datetime.time(1, 2, 3, 500000), mk(trunc="second")), (datetime.time(1, 2, 3), 3723, mk(numty=True)),
              ([1, 1.5], [1.75, 1.75, 1.5], mk()), ([1, 1.5], [1.75, 1.75, 1.5], mk(eps=0.5)),     # comp_default_mode_refuted
              (Decimal("1.5"), Decimal("1.50"), mk(nan=True, eps=0.0)), ({Decimal("2.5"): Decimal("1.5")}, {Decimal("2.50"): Decimal("1.50")}, mk(sig=2, case=True))]
+    xhand += [({'a': {G.P}, 'b': frozenset([1.0])}, {'a': {G.P}, 'b': frozenset([Decimal('1')])}, mk(excl=["float"])),      # _value_ 1
+              ({'a': {G.T}, 'b': frozenset([1.0])}, {'a': {G.T}, 'b': frozenset([Decimal('1')])}, mk(excl=["float"])),      # control
+              ({'a': {G.Q}, 'b': frozenset([1.0])}, {'a': {G.Q}, 'b': frozenset([Decimal('1')])}, mk(excl=["float"])),      # _sort_order_ 1
+              ({'a': {G.P}, 'b': frozenset([1.0])}, {'a': {G.P}, 'b': frozenset([Decimal('1')])}, mk(excl=["float", "str"])),   # keys skipped
+              ({'a': {G.P}, 'b': frozenset([1.0])}, {'a': {G.P}, 'b': frozenset([Decimal('1')])}, mk(excl=["float", "int"])),   # item skipped
+              ([{G.W}, {Decimal("1.5")}], [{G.W}, {1.5}], mk()), ([{G.P}, {1.0}], [{G.P}, {2}], mk()),
+              ({'k0': {0.0, 1.5, 2.0}, 'k1': frozenset([1.0]), 'k2': {b'x', 7, G.P, G.W}},
+               {'k2': {True, b'x', G.W, 7}, 'k1': frozenset([Decimal('1')]), 'k0': {0.0, 1.5, G.T}}, mk(excl=["float"]))]
     for a, b, sp in xhand + [(w[1], w[2], w[3]) for w in WITNESSES]:
         for zip_ in (False, True):
             if in_xuniverse(a) and in_xuniverse(b) and not (sp["enum"] and enum_meets_container(a, b)):
-                xjobs.append((a, b, sp, zip_, 0.33, "hand", "hand"))
+                (mjobs2 if enum_internal_alias(a, b, sp) else xjobs).append((a, b, sp, zip_, 0.33, "memo" if enum_internal_alias(a, b, sp) else "hand", "hand"))
             ojobs.append((a, b, sp, zip_, "rand", "hand", []))
     for name, sp, fam, a, b, log in focus_pairs(rng, 1000 if thorough else 130):
         zip_ = rng.random() < 0.4
@@ -2369,14 +2664,19 @@ def run(ctx):
         if not (in_xuniverse(a) and in_xuniverse(b)) or (sp["enum"] and enum_meets_container(a, b)):
             ctx.count("xcorr_skipped:outside_universe")
             continue
-        if xset_alias(a, b, sp):
+        if xset_alias(a, b, sp) or enum_internal_alias(a, b, sp):
+            if enum_internal_alias(a, b, sp):
+                ctx.count("memo_corr:set_member_aliases_enum_member_internal")
             mjobs2.append((a, b, sp, zip_, thr, "memo", name))
             continue
         xjobs.append((a, b, sp, zip_, thr, "focus", name))
     for a, b, sp in memo_pairs(rng, 1200 if thorough else 160):
         if in_xuniverse(a) and in_xuniverse(b) and not (sp["enum"] and enum_meets_container(a, b)):
-            mjobs2.append((a, b, sp, rng.random() < 0.5, rng.choice([0, 0.33]), "memo", "memo:" + "+".join(active(sp))))
+            zip_m, thr_m = rng.random() < 0.5, rng.choice([0, 0.33])        # drawn for every pair: the stream does not depend on the filter
             ojobs.append((a, b, sp, False, "rand", "memo", []))
+            if enum_internal_alias(a, b, sp):
+                ctx.count("memo_corr:set_member_aliases_enum_member_internal")
+            mjobs2.append((a, b, sp, zip_m, thr_m, "memo", "memo:" + "+".join(active(sp))))
     _XU = False
     with mp.get_context("fork").Pool(core.NCPU) as pool:
         mres2 = pool.map(xmodel_case, [(pack(j[0]), pack(j[1])) + tuple(j[2:]) for j in mjobs2], chunksize=16)
